@@ -74,9 +74,11 @@ def representable (m : Int) (k : Nat) : Bool :=
   (m == 0 || m.natAbs * 10 ^ 4 ≥ 2 ^ k) &&
   sigDigits m k ≤ 15
 
+/-- a float result or literal; a whole value is an integer at once (the `fix:` in `Operator.solve` / `Number.set_value`) -/
 def mkFlt (m : Int) (k : Nat) : Outcome Val :=
   let (m', k') := normFlt m k
-  if representable m' k' then .ok (.flt m' k') else .oom "float needs rounding or leaves the guarded range"
+  if representable m' k' then .ok (if k' == 0 then .int m' else .flt m' k')
+  else .oom "float needs rounding or leaves the guarded range"
 
 /-- `repr(float)` inside the guard: the plain decimal expansion -/
 def reprFlt (m : Int) (k : Nat) : Outcome Str :=
